@@ -272,11 +272,11 @@ Section Index.
     - (* Overwrite *)
       apply andb_true_iff in H as [H Hb]. apply andb_true_iff in H as [H Hc]. apply andb_true_iff in H as [Hf Hs].
       rewrite (frags_roundtrip _ Hf). cbn [obind].
-      destruct config_upsert as [[|c cs]|]; try discriminate. cbn [is_nil].
       rewrite (schema_txn_eta sc Hs).
-      destruct initial_bases as [[|b bs]|]; try discriminate.
-      + cbn [map is_nil]. rewrite bp_roundtrip, (map_map_id bp_to_pb bp_of_pb bs bp_roundtrip). reflexivity.
-      + reflexivity.
+      destruct config_upsert as [[|c cs]|]; try discriminate; cbn [is_nil];
+        (destruct initial_bases as [[|b bs]|]; try discriminate;
+         [cbn [map is_nil]; rewrite bp_roundtrip, (map_map_id bp_to_pb bp_of_pb bs bp_roundtrip); reflexivity
+         | reflexivity]).
     - (* CreateIndex *)
       apply andb_true_iff in H as [Hn Hr].
       rewrite (omap_roundtrip (idx_to_pb bm_ser) (idx_of_pb bm_de) wf_idx idx_roundtrip _ Hn). cbn [obind].
@@ -500,16 +500,16 @@ Proof.
   unfold wf_rg at 1; cbn [fst snd]. rewrite (frags_outside o Ho), (frags_outside n Hn), (IH Hgs). reflexivity.
 Qed.
 
-Lemma classes_zero : forall a b c d e : bool,
-  b2n a 1 + b2n b 2 + b2n c 4 + b2n d 8 + b2n e 16 = 0 ->
-  a = false /\ b = false /\ c = false /\ d = false /\ e = false.
-Proof. intros [|] [|] [|] [|] [|]; cbn; intro H; try (exfalso; lia); repeat split. Qed.
+Lemma classes_zero : forall a c d e : bool,
+  b2n a 1 + b2n c 4 + b2n d 8 + b2n e 16 = 0 ->
+  a = false /\ c = false /\ d = false /\ e = false.
+Proof. intros [|] [|] [|] [|]; cbn; intro H; try (exfalso; lia); repeat split. Qed.
 
 Lemma wf_txn_outside_classes : forall t, txn_typed t = true -> txn_classes t = 0 -> wf_txn t = true.
 Proof.
   intros [rv uuid op tag props] Ht Hc. unfold txn_classes in Hc.
-  apply classes_zero in Hc as [Hd [Hcfg [Hfri [Hmd Hsub]]]].
-  unfold Known_C32_default_conflated_txn, Known_C32_overwrite_config_upsert_dropped,
+  apply classes_zero in Hc as [Hd [Hfri [Hmd Hsub]]].
+  unfold Known_C32_default_conflated_txn,
     Known_C32_rewrite_frag_reuse_index_dropped, Known_C32_txn_schema_metadata_dropped, txn_idx_submilli,
     txn_typed, wf_txn in *.
   cbn [tx_operation tx_tag tx_properties] in *.
@@ -562,9 +562,10 @@ Section Witness.
   Definition w_default := txn_of (OpUpdate [] [] [] [] None [] None).
   Definition w_idx := mk_idx (repeat 0 16) [] [105] 1 None None 0%Z (Some 1700000000000000001%Z) None.
 
-  Lemma config_witness : Known_C32_overwrite_config_upsert_dropped w_config = true
-    /\ txn_of_pb bm_de (txn_to_pb bm_ser w_config) <> Ok w_config.
-  Proof. split; [reflexivity|]. vm_compute. discriminate. Qed.
+  (* regression for the repaired inverted emptiness test (/repo cb06601): a non-empty
+     config_upsert_values map now survives the round trip, whatever the codecs *)
+  Lemma config_regression : txn_of_pb bm_de (txn_to_pb bm_ser w_config) = Ok w_config.
+  Proof. reflexivity. Qed.
   Lemma fri_witness : Known_C32_rewrite_frag_reuse_index_dropped w_fri = true
     /\ txn_of_pb bm_de (txn_to_pb bm_ser w_fri) <> Ok w_fri.
   Proof. split; [reflexivity|]. vm_compute. discriminate. Qed.
